@@ -30,7 +30,7 @@ ASSUMPTIONS = [
 ]
 REQUIRED = ["target:leaf", "target:item-leaf", "target:dict-entry", "target:list-item", "target:subconfig", "route:setattr",
             "route:setitem", "route:ctor", "route:load_tree", "route:loads", "route:container", "route:inplace", "depth>=2", "raised",
-            "target:include@depth0", "target:include@depth1", "target:include@depth2", "failed-reoffer", "takeover"]
+            "target:include@depth0", "target:include@depth1", "target:include@depth2", "failed-reoffer", "takeover", "validator:odd-exception-type"]
 LEVEL_TEXT = (
     "Generated schemas x targets x rejected values x routes; the raised exception's type and reference path are "
     "compared with a model path computed from the spec; kills mutants that re-raise the field's own exception, "
@@ -100,12 +100,20 @@ def strategy(tier):
             kind = t[0]
             if kind == "leaf":
                 val = st.one_of(specs.values(t[2]), specs.junk())
+                if t[2].get("validator") == "v_not7":
+                    val = st.one_of(val, st.sampled_from([7, "7", 7.0, "7.0"]))
+                if t[2]["kind"] == "float":
+                    val = st.one_of(val, val, st.sampled_from([10 ** 400, -10 ** 400, "1" + "0" * 400]))  # beyond the float range
                 routes = ["setattr", "setitem", "ctor", "load_tree", "loads", "container"]
                 if t[2]["kind"] == "include":
                     # a document load resolves (and rejects) include values before anything else, at every depth
                     routes = ["loads", "loads", "loads", "load_tree", "setattr", "setitem"]
             elif kind == "item-leaf":
                 val = st.one_of(specs.values(t[4]), specs.junk(), specs.junk())
+                if t[4].get("validator") == "v_not7":
+                    val = st.one_of(val, st.sampled_from([7, "7", 7.0]))
+                if t[4]["kind"] == "float":
+                    val = st.one_of(val, val, st.sampled_from([10 ** 400, -10 ** 400]))
                 routes = ["item-setattr", "item-setattr", "item-setattr", "append", "insert", "setitem-index", "setitem-slice", "setitem-slice", "assign-list", "load_tree", "loads", "extend"]
             elif kind == "dict-entry":
                 vf = t[2].get("valuef")
@@ -133,7 +141,22 @@ def strategy(tier):
             by_kind.setdefault("leaf:include" if t[0] == "leaf" and t[2]["kind"] == "include" else t[0], []).append(i)
         return st.sampled_from(sorted(by_kind)).flatmap(lambda k: st.sampled_from(by_kind[k])).flatmap(for_target)
     from .c16 import _with_includes  # an include field at the root and in every nested schema, at every depth
-    return worlds.schema_spec(tier, allow=("schema", "schema", "configtype", "schemalist", "virtual", "method", "featureflag")).map(_with_includes).flatmap(pick)
+    return worlds.schema_spec(tier, allow=("schema", "schema", "configtype", "schemalist", "virtual", "method", "featureflag")).map(_with_includes).map(_odd_validators).flatmap(pick)
+
+
+def _odd_validators(node, counter=None):
+    """Every other custom validator rejects with an exception type of its own choosing (KeyError, RuntimeError, ...)."""
+    counter = counter if counter is not None else [0]
+    kids = []
+    for c in node["children"]:
+        if "children" in c:
+            c = _odd_validators(c, counter)
+        elif c.get("validator") in ("v_not42", "v_ok", None) and c["kind"] in ("int", "float", "str", "port", "any", "host", "url", "loglevel", "appmode", "ipv4"):
+            counter[0] += 1
+            if counter[0] % 2:
+                c = dict(c, validator="v_not7")
+        kids.append(c)
+    return dict(node, children=kids)
 
 
 def _nest(path, value):
@@ -238,6 +261,8 @@ def run_case(case, R):
     spec = _relax(spec, keep)
     t = _targets(spec)[case["target"] % len(targets)]
     R.label("target:" + kind)
+    if (t[4] if kind == "item-leaf" else t[2]).get("validator") == "v_not7":
+        R.label("validator:odd-exception-type")
     if kind == "leaf" and t[2]["kind"] == "include":
         R.label("target:include@depth%d" % min(len(t[1]) - 1, 2))
     ctx = specs.ref_ctx()
